@@ -1,6 +1,11 @@
 ------------------------------ MODULE SimilarGen ------------------------------
 EXTENDS Similar, Json
 VARIABLE c
-GenInit == pr = <<>> /\ c \in {[kind |-> "sim", g |-> p[1], h |-> p[2], tol |-> Tol] : p \in Pairs} /\ PrintT(ToJson(c))
+(* "for any positive tolerance": part of the pairs is also compared with every coordinate and the tolerance multiplied by 2^sh
+   (the harness does it, exactly) - a tolerance of 10 * 2^-600, coordinates of the order of 2^610 *)
+RECURSIVE HashG(_)
+HashG(g) == LET f == Flatten(g) IN IF Len(f) = 0 THEN 1 ELSE (f[1][1] * 7 + f[Len(f)][2] * 3 + Len(f)) % 101
+Shifted == {[kind |-> "sim", g |-> p[1], h |-> p[2], tol |-> Tol, sh |-> k] : p \in {q \in Pairs : (HashG(q[1]) + 3 * HashG(q[2])) % 7 = 0}, k \in {-600, 600}}
+GenInit == pr = <<>> /\ c \in {[kind |-> "sim", g |-> p[1], h |-> p[2], tol |-> Tol] : p \in Pairs} \cup Shifted /\ PrintT(ToJson(c))
 GenSpec == GenInit /\ [][UNCHANGED <<pr, c>>]_<<pr, c>>
 =============================================================================
